@@ -1,28 +1,145 @@
 """C14 implementation driver: runs generated dynamic programs on the real Scenic with a fault
-injected at a chosen point, logs every write/override/scenario start/stop in execution order with a
-snapshot of what the objects read, and snapshots the scene and the veneer's globals afterwards."""
+injected at a chosen point, logs every write/override/scenario start (with the identity of the
+scenario that veneer.currentScenario designates) in execution order together with the set of running
+scenarios and a snapshot of what the objects and the behaviours' globals read, and snapshots the
+scene and the interpreter's global state afterwards."""
 import builtins
 import json
+import os
 import random
+import re
+import signal
 import sys
 import traceback
+import types
 import warnings
 
 warnings.filterwarnings("ignore")
 import numpy
 
 import scenic
-from scenic.core.simulators import DummySimulation, DummySimulator
+from scenic.core.simulators import Action, DummySimulation, DummySimulator, Simulation
 from scenic.core.vectors import Vector
+import scenic.core.object_types as object_types
 import scenic.syntax.veneer as veneer
 
 PROPS = ["foo", "bar", "baz"]
-LOG = []
-builtins.VERIF_C14_LOG = LOG
+NP = 5  # foo, bar, baz, position.y, behaviour id
+NOBJ = 3  # two scene objects + the first object created during the run
+BEH_ID = {"B": 1, "B2": 2}
 
 
-def snap_objs(objs):
-    return [[getattr(o, p) for p in PROPS] + [o.position.y] for o in objs]
+def intval(v):
+    if isinstance(v, bool) or not isinstance(v, (int, float)):
+        return -1
+    return v
+
+
+def obj_row(o):
+    b = o.behavior
+    return [intval(getattr(o, p)) for p in PROPS] + [o.position.y, 0 if b is None else BEH_ID.get(type(b).__name__, 9)]
+
+
+class Abort(BaseException):
+    """a KeyboardInterrupt-like exception"""
+
+
+class API:
+    """What the generated programs call (exposed through builtins.VERIF_C14)."""
+
+    Abort = Abort
+
+    def __init__(self):
+        self.reset(None, 0)
+
+    def reset(self, scene, run):
+        self.log = []
+        self.run = run
+        self.scene = scene
+        self.sids = {}
+        self.keep = []
+        self.dyn = []
+        if scene is not None:
+            self.sid(scene.dynamicScenario)
+
+    def RUN_(self):
+        return self.run
+
+    def sid(self, sc):
+        if id(sc) not in self.sids:
+            self.sids[id(sc)] = len(self.sids)
+            self.keep.append(sc)
+        return self.sids[id(sc)]
+
+    def cur_(self):
+        return self.sid(veneer.currentScenario)
+
+    def objs_(self):
+        return veneer.currentSimulation.objects
+
+    def idx_(self, o):
+        for i, x in enumerate(veneer.currentSimulation.objects):
+            if x is o or object.__getattribute__(x, "_dynamicProxy") is o:
+                return i
+        raise ValueError("object not in simulation")
+
+    def snapshot(self, ns):
+        objs = veneer.currentSimulation.objects[:NOBJ]
+        rows = [obj_row(o) for o in objs]
+        while len(rows) < NOBJ:
+            rows.append([0] * NP)
+        rows.append(ns_row(ns))
+        return rows
+
+    def rec_(self, ns, kind, *args):
+        if veneer.currentSimulation is None:
+            return 0
+        alive = [self.sid(s) for s in veneer.runningScenarios]
+        self.log.append([kind, *args, alive, self.snapshot(ns)])
+        return 0
+
+    def now(self):
+        return veneer.currentSimulation.currentTime if veneer.currentSimulation else -1
+
+    def boom_(self, t):
+        if veneer.currentSimulation is not None and veneer.currentSimulation.currentTime >= t:
+            raise RuntimeError("injected in expression")
+        return 0
+
+    def boomc_(self):
+        raise RuntimeError("injected at compile time")
+
+    def rej_(self, t):
+        from scenic.core.dynamics.utils import RejectSimulationException
+
+        if veneer.currentSimulation is not None and veneer.currentSimulation.currentTime >= t:
+            raise RejectSimulationException("injected rejection")
+        return 0
+
+
+class SetAct(Action):
+    """an action writing a property of the agent through Action.applyTo"""
+
+    def __init__(self, ns, p, x, fail=False):
+        self.ns, self.p, self.x, self.fail = ns, p, x, fail
+
+    def applyTo(self, agent, sim):
+        if self.fail:
+            raise RuntimeError("injected in applyTo")
+        setattr(agent, PROPS[self.p], self.x)
+        A.rec_(self.ns, "W", A.idx_(agent), self.p, self.x)
+
+    def __repr__(self):
+        return f"SetAct({self.p}, {self.x})"
+
+
+A = API()
+A.SetAct = SetAct
+builtins.VERIF_C14 = A
+
+
+def ns_row(ns):
+    return [intval(ns.get("G0")), intval(ns.get("G1"))] + [0] * (NP - 2)
 
 
 class Injected(Exception):
@@ -32,9 +149,10 @@ class Injected(Exception):
 class FaultySimulation(DummySimulation):
     fault = None  # (where, step)
 
-    def __init__(self, scene, fault=None, **kw):
+    def __init__(self, scene, fault=None, ns=None, **kw):
         self.fault = fault
         self._nstep = 0
+        self._ns = ns or {}
         super().__init__(scene, **kw)
 
     def _maybe(self, where):
@@ -42,7 +160,7 @@ class FaultySimulation(DummySimulation):
             raise Injected(where)
 
     def createObjectInSimulator(self, obj):
-        if self.fault and self.fault[0] == "create" and len(self.objects) - 1 == self.fault[1] % 2:
+        if self.fault and self.fault[0] == "create" and len(self.objects) - 1 == self.fault[1] % 3:
             # a simulator interface that has already written properties of the object when it fails
             obj.foo = 555
             obj.position = Vector(obj.position.x, 7, 0)
@@ -51,17 +169,18 @@ class FaultySimulation(DummySimulation):
 
     def executeActions(self, allActions):
         self._maybe("actions")
-        return super().executeActions(allActions)
+        for agent, actions in allActions.items():
+            for action in actions:
+                if isinstance(action, Action):
+                    action.applyTo(agent, self)
 
     def step(self):
         self._maybe("step")
-        cur = snap_objs(self.objects[:2])
         super().step()
         self._nstep += 1
-        # the simulator's write of a dynamic property, as seen through the objects (one write per object)
-        for i, o in enumerate(self.objects[:2]):
-            cur[i][3] = o.position.y
-            LOG.append(["W", i, 3, o.position.y, [list(r) for r in cur]])
+        # the simulator's write of a dynamic property, as seen through the objects
+        for i, o in enumerate(self.objects[:NOBJ]):
+            A.rec_(self._ns, "W", i, 3, o.position.y)
 
     def getProperties(self, obj, properties):
         self._maybe("readback")
@@ -69,19 +188,65 @@ class FaultySimulation(DummySimulation):
 
 
 class FaultySimulator(DummySimulator):
-    def __init__(self, fault=None, drift=1.0):
+    def __init__(self, fault=None, drift=1.0, ns=None):
         super().__init__(drift=drift)
         self.fault = fault
+        self.ns = ns
 
     def createSimulation(self, scene, **kwargs):
-        return FaultySimulation(scene, fault=self.fault, drift=self.drift, **kwargs)
+        return FaultySimulation(scene, fault=self.fault, ns=self.ns, drift=self.drift, **kwargs)
+
+
+def canon(v, depth=0):
+    """process-independent description of a module-level value"""
+    if v is None or isinstance(v, (bool, int, float, str)):
+        return v
+    if isinstance(v, type):
+        return "class " + v.__module__ + "." + v.__qualname__
+    if isinstance(v, (list, tuple)):
+        return [type(v).__name__, len(v)] + ([canon(x, depth + 1) for x in v] if depth < 2 and len(v) <= 8 else [])
+    if isinstance(v, (set, frozenset)):
+        return [type(v).__name__, len(v), sorted(repr(canon(x, 2)) for x in v)[:8]]
+    if isinstance(v, dict):
+        return ["dict", len(v), sorted(str(k) for k in v)[:8]]
+    return "<" + type(v).__module__ + "." + type(v).__name__ + ">"
+
+
+SKIP_TYPES = (types.FunctionType, types.BuiltinFunctionType, types.ModuleType, types.MethodType)
+
+
+def module_state(mod, classes=False):
+    d = {}
+    for k, v in vars(mod).items():
+        if k.startswith("__") or isinstance(v, SKIP_TYPES):
+            continue
+        if isinstance(v, type) and not classes:
+            continue
+        d[k] = canon(v)
+    return d
 
 
 def veneer_state():
-    return dict(active=veneer.isActive(), sim=veneer.currentSimulation is None, scen=veneer.currentScenario is None,
-                running=len(veneer.runningScenarios), beh=veneer.currentBehavior is None,
-                params=len(veneer._globalParameters), evalreq=bool(veneer.evaluatingRequirement),
-                stack=len(veneer.scenarioStack), inprogress=veneer.simulationInProgress())
+    """EVERY module-level name of scenic.syntax.veneer that is not a function/module (classes are
+    recorded by qualified name: Point/OrientedPoint/Object are swapped in 2D mode), plus the other
+    places where the interpreter keeps global state."""
+    import scenic.core.dynamics as dynamics
+    import scenic.core.errors as errors
+    import scenic.syntax.translator as translator
+
+    st = dict(veneer=module_state(veneer, classes=True))
+    st["object_types"] = {k: canon(getattr(object_types, k)) for k in ("Point", "OrientedPoint", "Object")}
+    st["dynamics"] = module_state(dynamics)
+    st["errors"] = {k: v for k, v in module_state(errors).items() if isinstance(v, (bool, int, type(None)))}
+    st["translator"] = {k: v for k, v in module_state(translator).items() if isinstance(v, (bool, int, type(None), list))}
+    st["scenic_modules"] = sorted(n for n, m in sys.modules.items() if isinstance(m, translator.ScenicModule))
+    st["verif_modules"] = sorted(n for n in sys.modules if n.startswith("verif_c14"))
+    st["sigalrm"] = repr(signal.getsignal(signal.SIGALRM))
+    st["sys_path_len"] = len(sys.path)
+    st["meta_path"] = [type(f).__name__ if not isinstance(f, type) else f.__name__ for f in sys.meta_path]
+    st["inprogress"] = veneer.simulationInProgress()
+    st["active"] = veneer.isActive()
+    return st
 
 
 def result_canon(sim):
@@ -93,54 +258,89 @@ def result_canon(sim):
                 term=str(r.terminationType), records={k: repr(v) for k, v in r.records.items()})
 
 
-def run_program(job):
-    del LOG[:]
-    out = dict(name=job["name"])
-    random.seed(job["seed"])
-    numpy.random.seed(job["seed"])
+def find_ns(scene):
+    for modName, (namespace, sampledNS, originalNS) in scene.behaviorNamespaces.items():
+        if "G0" in namespace:
+            return namespace, sampledNS
+    return {}, {}
+
+
+def scene_snapshot(scene, ns):
+    rows = [obj_row(o) for o in scene.objects[:2]]
+    rows.append(obj_row(A.dyn[0]) if A.dyn else [0] * NP)
+    rows.append(ns_row(ns))
+    return rows
+
+
+def one_run(scene, job, run, ns, fault, seed):
+    A.reset(scene, run)
+    random.seed(seed)
+    numpy.random.seed(seed)
+    out = {}
+    out["before"] = scene_snapshot(scene, ns)
     try:
-        scenario = scenic.scenarioFromString(job["src"], scenario="Main")
-        scene, _ = scenario.generate(maxIterations=50)
-    except BaseException as e:
-        out["skip"] = "compile/generate: " + type(e).__name__ + ": " + str(e)[:300]
-        out["veneer_after"] = veneer_state()
-        return out
-    before = snap_objs(scene.objects[:2])
-    allprops_before = scene_props(scene)
-    fault = job.get("sim_fault")
-    simulator = FaultySimulator(fault=fault)
-    random.seed(job["seed"] + 1)
-    try:
-        sim = simulator.simulate(scene, maxSteps=job.get("steps", 8), maxIterations=1,
-                                 raiseGuardViolations=job.get("raise_guard", True))
+        sim = FaultySimulator(fault=fault, ns=ns).simulate(scene, maxSteps=job.get("steps", 8), maxIterations=1,
+                                                          raiseGuardViolations=job.get("raise_guard", True))
         out["outcome"] = "rejected" if sim is None else "completed"
         out["result"] = result_canon(sim)
     except BaseException as e:
         out["outcome"] = "exception:" + type(e).__name__
         out["exc"] = str(e)[:200]
-        sim = None
-    out["log"] = list(LOG)
-    out["before"] = before
-    out["after"] = snap_objs(scene.objects[:2])
+    out["log"] = list(A.log)
+    out["after"] = scene_snapshot(scene, ns)
+    return out
+
+
+def compile_job(job):
+    kw = {}
+    if job.get("mode2D"):
+        kw["mode2D"] = True
+    if job.get("params"):
+        kw["params"] = job["params"]
+    if job.get("file"):
+        d = os.path.join(os.environ.get("VERIF_C14_TMP", "/tmp"), f"verif_c14_{os.getpid()}")
+        os.makedirs(d, exist_ok=True)
+        for name, text in job["file"].items():
+            with open(os.path.join(d, name), "w") as f:
+                f.write(text)
+        return scenic.scenarioFromFile(os.path.join(d, job["main"]), scenario=job.get("scenario", "Main"), **kw)
+    return scenic.scenarioFromString(job["src"], scenario=job.get("scenario", "Main"), **kw)
+
+
+def run_program(job):
+    out = dict(name=job["name"])
+    random.seed(job["seed"])
+    numpy.random.seed(job["seed"])
+    A.reset(None, 0)
+    try:
+        scenario = compile_job(job)
+        scene, _ = scenario.generate(maxIterations=50)
+    except BaseException as e:
+        out["skip"] = "compile/generate: " + type(e).__name__ + ": " + str(e)[:300]
+        out["veneer_after"] = veneer_state()
+        return out
+    ns, sampled = find_ns(scene)
+    out["gs"] = ns_row(sampled)
+    allprops_before = scene_props(scene)
+    fault = job.get("sim_fault")
+    r1 = one_run(scene, job, 0, ns, fault, job["seed"] + 1)
+    out.update(r1)
     out["allprops_equal"] = scene_props(scene) == allprops_before
     if not out["allprops_equal"]:
         a = scene_props(scene)
         out["allprops_diff"] = [[i, k, repr(allprops_before[i].get(k)), repr(a[i].get(k))] for i in range(len(a)) for k in a[i] if a[i].get(k) != allprops_before[i].get(k)][:10]
     out["veneer_after"] = veneer_state()
     # re-running with the same seed gives the same result
-    if job.get("rerun", True):
-        del LOG[:]
-        random.seed(job["seed"] + 1)
-        try:
-            sim2 = FaultySimulator(fault=fault).simulate(scene, maxSteps=job.get("steps", 8), maxIterations=1,
-                                                         raiseGuardViolations=job.get("raise_guard", True))
-            out["rerun_outcome"] = "rejected" if sim2 is None else "completed"
-            out["rerun_equal"] = result_canon(sim2) == out.get("result")
-        except BaseException as e:
-            out["rerun_outcome"] = "exception:" + type(e).__name__
-            out["rerun_equal"] = True
-        out["rerun_log_equal"] = [l[:4] for l in LOG] == [l[:4] for l in out["log"]]
-        out["after2"] = snap_objs(scene.objects[:2])
+    r2 = one_run(scene, job, 0, ns, fault, job["seed"] + 1)
+    out["rerun_outcome"] = r2["outcome"]
+    out["rerun_equal"] = r2.get("result") == r1.get("result")
+    out["rerun_log_equal"] = r2["log"] == r1["log"]
+    out["after2"] = r2["after"]
+    # a third simulation of the same scene that takes a different course (the program reads RUN())
+    r3 = one_run(scene, job, 1, ns, fault, job["seed"] + 2)
+    out["run3"] = dict(log=r3["log"], before=r3["before"], after=r3["after"], outcome=r3["outcome"])
+    out["allprops_equal3"] = scene_props(scene) == allprops_before
+    out["veneer_after3"] = veneer_state()
     return out
 
 
@@ -159,15 +359,18 @@ def scene_props(scene):
 
 
 def run_probe(job):
-    """A fixed probe program: compile, generate, simulate; canonical output."""
+    """A probe program: compile, generate, simulate; canonical output."""
     random.seed(job["seed"])
     numpy.random.seed(job["seed"])
-    del LOG[:]
+    A.reset(None, 0)
     try:
-        scenario = scenic.scenarioFromString(job["src"], scenario="Main")
+        scenario = compile_job(job)
         scene, its = scenario.generate(maxIterations=50)
-        sim = DummySimulator(drift=1.0).simulate(scene, maxSteps=job.get("steps", 6), maxIterations=1)
-        return dict(its=its, scene=snap_objs(scene.objects[:2]), result=result_canon(sim), log=[l[:4] for l in LOG])
+        ns, sampled = find_ns(scene)
+        A.reset(scene, 0)
+        sim = FaultySimulator(ns=ns).simulate(scene, maxSteps=job.get("steps", 6), maxIterations=1)
+        return dict(its=its, scene=json.loads(re.sub(r"0x[0-9a-f]+", "0x", json.dumps(scene_props(scene)))), params={k: repr(v) for k, v in scene.params.items()},
+                    result=result_canon(sim), log=list(A.log))
     except BaseException as e:
         return dict(error=type(e).__name__ + ": " + str(e)[:200])
 
@@ -177,7 +380,9 @@ def main():
     outs = []
     for p in job["programs"]:
         try:
-            if p.get("probe"):
+            if p.get("state"):
+                outs.append(dict(name=p["name"], state=veneer_state()))
+            elif p.get("probe"):
                 outs.append(dict(name=p["name"], probe=run_probe(p), veneer_after=veneer_state()))
             else:
                 outs.append(run_program(p))
